@@ -814,6 +814,32 @@ def wave8_rules(ctx):
     return obs
 
 
+def wave10_rules(ctx):
+    """obligations added after the tenth wave of seeded changes"""
+    from share import relabel
+    ob = ctx.ob
+    tc = ctx.tc
+    obs = []
+    # (1) the position of a `<wxs>` module in the template's list is its scope index: the list is appended to and its entries
+    #     are overwritten in place, nothing removes, inserts or re-orders
+    REORDER = {"remove", "swap_remove", "insert", "retain", "sort", "sort_by", "sort_by_key", "reverse", "drain", "dedup", "dedup_by_key", "rotate_left", "rotate_right", "swap", "truncate", "pop", "split_off", "clear"}
+    moved, n_ = [], 0
+    for f in tc.fns:
+        if not f.body or f.module[:1] != ["parse"]:
+            continue
+        for n in sir.walk(f.body, into_closures=True):
+            if n.get("k") == "mcall" and re.search(r"globals\.scripts$", sir.expr_str(sir.strip_ref(n["recv"])).replace(" ", "")):
+                n_ += 1
+                if n["m"] in REORDER:
+                    moved.append("%s calls `.%s()` on the module list" % (f.name, n["m"]))
+    obs.append(ob("C05.mirror/modules/positions-fixed", False if moved else True if n_ >= 4 else None, "parse/tag.rs", "; ".join(moved[:2]) if moved else "%d uses of the module list: iteration, in-place overwrite and append only" % n_,
+                  witness=None if not moved else "set_inline_script_content on the first of two modules: references to it now resolve to the second"))
+    # (2) the loop callback's parameters are bound to the scopes in the order the runtime passes them (shared with C06.scopes)
+    from rules.c06 import scopes_rule
+    obs += relabel(scopes_rule(ctx), "C06.scopes", "C05.mirror/gen/scope-args")
+    return obs
+
+
 def wave9_rules(ctx):
     """obligations added after the ninth wave of seeded changes"""
     import absint as ai
@@ -907,6 +933,7 @@ def run(ctx):
     obs += slot_key_rule(ctx)
     obs += wave8_rules(ctx)
     obs += wave9_rules(ctx)
+    obs += wave10_rules(ctx)
     n_children = sum(1 for o in obs if o["key"].startswith("C05.children/"))
     if n_children < 88:
         obs.append(ctx.ob("C05.floor/children", False, "parse/expr.rs", "only %d variant x iterator obligations (floor 88 = 44 variants x 2 iterators)" % n_children))
